@@ -32,6 +32,14 @@ def run_case(case, ctx):
     return opsem.compare(ID, case, ctx, CFGS, extended=False)
 
 
+
+def extra_cases(tier, shard, nshards, ctx):
+    if tier != "thorough":
+        return
+    yield from opsem.exhaustive_one_conditional(shard, nshards, ctx)
+    yield from opsem.corpus484(shard, nshards, ctx)
+
+
 def shrink(case):
     for c in gen.shrink_candidates(case):
         yield gen.renumber(c)
